@@ -233,7 +233,10 @@ func (ctrl *QController[Input, Output]) Reconcile(ctx context.Context, logger *z
 }
 
 func (ctrl *QController[Input, Output]) reconcileRunning(ctx context.Context, logger *zap.Logger, r controller.QRuntime, in Input, mappedOut Output) error {
-	if !in.Metadata().Finalizers().Has(ctrl.Name()) {
+	// an input which is tearing down (with the teardown being ignored) might have been read from the cache at a point
+	// before this controller removed its own finalizer from it: don't trust the list of finalizers in that case,
+	// AddFinalizer is a no-op if the finalizer is still there
+	if in.Metadata().Phase() == resource.PhaseTearingDown || !in.Metadata().Finalizers().Has(ctrl.Name()) {
 		if err := r.AddFinalizer(ctx, in.Metadata(), ctrl.Name()); err != nil {
 			return fmt.Errorf("error adding input finalizer: %w", err)
 		}
